@@ -223,10 +223,11 @@ impl CoordTrait for PointZ {
             1 => self.y(),
             2 => self.z,
             3 => {
-                if self.m > NO_DATA {
-                    self.m
-                } else {
+                // Same predicate as `dim()`, so that every index below `dim().size()` is readable
+                if self.m <= NO_DATA {
                     panic!("asked for 4th item from coordinate but this coordinate does not have 4 dimensions.")
+                } else {
+                    self.m
                 }
             }
             _ => panic!("invalid dimension index"),
@@ -259,10 +260,11 @@ impl CoordTrait for &PointZ {
             1 => self.y(),
             2 => self.z,
             3 => {
-                if self.m > NO_DATA {
-                    self.m
-                } else {
+                // Same predicate as `dim()`, so that every index below `dim().size()` is readable
+                if self.m <= NO_DATA {
                     panic!("asked for 4th item from coordinate but this coordinate does not have 4 dimensions.")
+                } else {
+                    self.m
                 }
             }
             _ => panic!("invalid dimension index"),
